@@ -515,7 +515,8 @@ def run(tier="quick"):
                      ("O3", "del = done then dealloc"), ("O5", "remove clears the node's data before deleting the node"),
                      ("O6", "no local allocation leaks on any path"), ("O7", "no use after release"),
                      ("O8", "object setters delete the previous object"), ("O9", "init assigns every field done releases"), ("O10", "a struct-copied duplicate shares no pointer field with its original"),
-                     ("O11", "a field holding a block this function allocated is released before it is overwritten")):
+                     ("O11", "a field holding a block this function allocated is released before it is overwritten"),
+                     ("O12", "a map's set() duplicates the caller's value before it releases what the pair holds")):
         chk.rule(rid, txt)
     prog = facts.extract()
     dones = [f for f in classinfo.functions_in_slot(prog, "done") if f.unit.name in FILES]
@@ -620,6 +621,30 @@ def run(tier="quick"):
                    detail="%s uses %s after it was released at %s" % (f.name, X.render(u)[:50], f.loc(r) if r else "?"))
         if not uaf:
             chk.ob("O7", f.name, "use-after-release", True, loc=f.loc(f.body), proof="no use of a must-released path")
+    # O12 replace-by-copy takes the copy first: in a map's set(), the duplicate of the caller's value is made before anything the
+    # pair holds is released.  The getters hand out the stored objects themselves, so the caller's value can BE the value the pair
+    # holds (v = get(map, k); set(map, k, v)): releasing first frees it and then duplicates freed memory.
+    n12 = 0
+    for f in classinfo.functions_in_slot(prog, "set"):
+        if f.unit.name not in ("array.c", "linked_list.c", "dlinked_list.c") or f.body is None or len(f.params) < 3:
+            continue
+        vd = f.params[2]["d"]
+        cfg12 = nullness.prepared_cfg(f, NORETURN)
+        dups = [c for c in X.calls_in(f.body) if (X.dispatch_slot(c) == "dup" or re.search(r"_dup$", X.callee_name(c) or "")) and
+                any(y.get("k") == "ref" and y.get("d") == vd for a in c["ch"][1:] for y in walk(a))]
+        rels = []
+        for c in X.calls_in(f.body):
+            cn = X.callee_name(c) or ""
+            if re.search(r"objpair_set_(value|key)$", cn) or own.release_kind(c) == "del" or X.dispatch_slot(c) == "del":
+                rels.append(c)
+        for d_ in dups:
+            n12 += 1
+            bad = [r_ for r_ in rels if r_ is not d_ and not any(y is d_ for y in walk(r_)) and cfg12.node_dominates(r_["i"], d_["i"])]
+            chk.ob("O12", f.name, "copy-before-release:" + canon(f, d_)[:36], not bad, loc=f.loc(bad[0]) if bad else f.loc(d_),
+                   detail="%s releases what the pair holds (%s) before it duplicates the caller's value: when the caller passes the very "
+                          "object the map handed out for that key, the copy is taken from freed memory" % (f.name, X.render(bad[0])[:50] if bad else ""),
+                   proof="the duplicate of the value parameter is not dominated by a release of the pair's contents")
+    chk.count("replace_by_copy_sites", n12, floor=3)
     # O11 a field holding a block allocated by this function is not overwritten before it is released
     memo11 = {}
     n11 = 0
